@@ -135,6 +135,16 @@ Theorem C16_identity_marker_refuted :
 Proof. exact identity_marker_refuted. Qed.
 Print Assumptions C16_identity_marker_refuted.
 
+(* what does hold for an identical text (weaker than C16_identity_keeps_lines, which is tested but
+   not proved): a list in merge-normal form with non-empty ranges inside the text -- the shape of
+   every marker-free output of update -- is returned unchanged, so its line attributions are too *)
+Theorem C16_identity_fixpoint : forall old attrs author ts,
+  merge attrs = attrs ->
+  Forall (fun a => a_start a < a_end a /\ a_end a <= blen old) attrs ->
+  update attrs author ts (mkFacts [(DEq, old)] [] []) = Ok attrs.
+Proof. exact identity_fixpoint. Qed.
+Print Assumptions C16_identity_fixpoint.
+
 (* non-vacuity: the facts of a real run with a moved block meet every contract *)
 Example C16_nonvacuous :
   wf_diff wOK_old wOK_new wOK_facts = true /\ moves_ok wOK_facts = true /\ moves_fit wOK_facts = true /\
